@@ -2601,8 +2601,15 @@ where
             }
         }
 
-        // Level 3 (topology)
+        // Level 3 (topology), then the completion-time PL-manifold check that cumulative
+        // `validate()` runs after it (vertex links under `PLManifold`): without it the report
+        // could be empty for a complex that `validate()` rejects.
         if let Err(e) = self.is_valid() {
+            violations.push(InvariantViolation {
+                kind: InvariantKind::Topology,
+                error: e.into(),
+            });
+        } else if let Err(e) = self.validate_at_completion() {
             violations.push(InvariantViolation {
                 kind: InvariantKind::Topology,
                 error: e.into(),
